@@ -6,6 +6,10 @@ HERE = os.path.dirname(os.path.abspath(__file__))
 TECH = "deterministic simulation with fault injection: seeded runs of the real library on a simulated block device (SimDisk); "
 
 CHECKS = {
+ "C16": dict(level="exploration", design="§5 C16",
+   text="A seeded tree is offered as source by a host directory, by fat32/ext4/iso9660 Rock Ridge/squashfs images on simulated devices, or by an in-memory fs.FS whose files return legal short reads (1-byte and odd pieces, (n,EOF), one (0,nil)); CopyFileSystem copies it into fat12/16/32 and ext4 volumes; when it returns nil the reopened destination is compared with the tree by an independent walker (no excluded names copied, nothing missing or extra, contents equal). CompareFS must return nil on the faithful copy and an error for each single-point mutation presented through overlay filesystems (byte changed at first/middle/last position, content one byte longer/shorter, size +-1, entry missing, extra file, extra directory, file became directory) and for one stored data byte flipped on the destination device; thorough adds a file above the 64 MiB streaming threshold from a zero-generating source.",
+   note="Seeded sampling over trees and pairings. Names are legal for the destination; dot-file naming on ISO sources is left to C06. A copy that returns an error is not judged.",
+   technique=TECH+"stream fault injection (legal short reads) + single-point mutation overlays + stored-byte flip, independent tree diff"),
  "C18": dict(level="fault_enumeration", design="§5 C18",
    text="Per base image of every filesystem kind (fat12/16/32, ext4 written by the library and by mke2fs, iso9660 plain/Rock Ridge/Joliet, squashfs with several compressors/options), built deterministically on the simulated device: (a) the structural field map of the format (BPB/FSInfo fields, FAT entries incl. self/back links and out-of-range, directory entries; ext4 superblock, group descriptors, inodes, extent headers and entries, directory entries; ISO volume descriptors, root/directory records, path table entries; squashfs superblock fields, table pointers, metadata headers) x boundary values is enumerated; (b) seeded blind pokes of 1/2/4/8 bytes inside the writer's metadata extents (file payload excluded; 300 per image quick, 4000 thorough); (c) device truncation at structure boundaries. Each damaged image is opened, walked and every file Stat-ed and read through a bounded reader under a device-read budget (ReadAt raises once exceeded, which breaks endless read loops), a per-request size bound and a CPU-time bound, with the worker under RLIMIT_AS and its death or hang attributed to the case through a shared-memory marker.",
    note="Field map enumeration is complete per base image; blind pokes are a seeded sample. Budgets: max(20000, 1000x baseline) device reads, request <= 64x image + 1 MiB, 10 s CPU (a timing overrun must reproduce in a fresh process). Returned data is not judged.",
